@@ -1458,3 +1458,186 @@ def fam_exh_contract(rng, n, prefix):
                     c.o("fin", 0)
                     out.append(c)
     return out
+
+
+# ---------- process-history independence: related muxers one after the other in one process ----------
+def _grouped(out, group, cases):
+    before = []
+    for c in cases:
+        c.meta["group"] = group
+        c.meta["before"] = list(before)
+        before.append(c)
+        out.append(c)
+
+
+SPS_A = bytes.fromhex("6742001eda02802d8b11")
+SC3, SC4 = b"\x00\x00\x01", b"\x00\x00\x00\x01"
+
+
+def _h264_hist(c, rng, sps=SPS_A, pps=bytes.fromhex("68ce3880"), vt=(0, 3000, 6000), fin=0):
+    c.o("wv", fb(vt[0] / 90000.0), hx(SC4 + sps + SC4 + pps + SC3 + b"\x65\x88" + rng.bytes(4)), 1)
+    for t in vt[1:]:
+        c.o("wv", fb(t / 90000.0), hx(SC4 + b"\x41\x9a" + rng.bytes(3)), 0)
+    c.o("fin", fin)
+
+
+def fam_neighbours(rng, n, prefix):
+    """groups of progressive muxers that differ in ONE respect, run back to back in one process, n rounds"""
+    out = []
+    for r in range(n):
+        P = "%sr%d_" % (prefix, r)
+        # 1. AAC configurations whose (rate, channels) are close
+        g = []
+        for k, (rate, ch) in enumerate([(96000, 2), (96000, 3), (88200, 4), (88200, 5), (48000, 2), (48000, 1), (96000, 2)]):
+            c = Case("%saac%d" % (P, k), "mux")
+            c.b("video", "h264", "280", "1e0")
+            c.b("audio", "aac-lc", "%x" % rate, "%x" % ch)
+            c.b("fast", k % 2)
+            c.o("wv", fb(0.0), hx(SC4 + SPS_A + SC4 + bytes.fromhex("68ce3880") + SC3 + b"\x65\x88\x84"), 1)
+            c.o("wa", fb(0.0), hx(adts(rng, payload_len=4, chan=min(ch, 7))))
+            c.o("wa", fb(0.02), hx(adts(rng, payload_len=5, chan=min(ch, 7))))
+            c.o("fin", 0)
+            g.append(c)
+        _grouped(out, P + "aac", g)
+        # 2. metadata: empty title / no title / language only / title, same creation time
+        g = []
+        for k, (title, ct, lang) in enumerate([("", "65a0b0c0", "~"), ("~", "65a0b0c0", "~"), ("~", "~", hx(b"fra")), (hx(b"A"), "65a0b0c0", "~"),
+                                               ("~", "65a0b0c0", "~"), ("", "~", "~"), ("~", "~", "~")]):
+            c = Case("%smeta%d" % (P, k), "mux")
+            c.b("video", "h264", "280", "1e0")
+            c.b("fast", (k + r) % 2)
+            if (title, ct, lang) != ("~", "~", "~"):
+                c.b("meta", title if title else "-", ct, lang)
+            _h264_hist(c, rng)
+            g.append(c)
+        _grouped(out, P + "meta", g)
+        # 3. dimensions / layout / parameter sets: same SPS with PPS of different lengths, different SPS
+        g = []
+        for k, (w, h, fast, sps, pps) in enumerate([(640, 480, 0, SPS_A, "68ce3880"), (1920, 1080, 1, SPS_A, "68ce38801122"),
+                                                    (1920, 1080, 0, SPS_A[:-1] + b"\x22", "68ce3880"), (320, 240, 1, SPS_A, "68ce"),
+                                                    (320, 240, 0, SPS_A, "68ce3880aabbcc"), (640, 480, 0, SPS_A, "68ce3880")]):
+            c = Case("%sdims%d" % (P, k), "mux")
+            c.b("video", "h264", "%x" % w, "%x" % h)
+            c.b("fast", fast)
+            _h264_hist(c, rng, sps=sps, pps=bytes.fromhex(pps))
+            g.append(c)
+        _grouped(out, P + "dims", g)
+        # 4. codecs in turn (scratch buffers shared between the H.264 and H.265 converters)
+        g = []
+        for k, codec in enumerate(["h264", "h265", "h264", "h265", "h265", "h264"]):
+            c = Case("%scodec%d" % (P, k), "mux")
+            c.b("video", codec, "280", "1e0")
+            c.b("fast", k % 2)
+            c.o("wv", fb(0.0), hx(video_key(rng, codec)), 1)
+            c.o("wv", fb(0.04), hx(video_delta(rng, codec)), 0)
+            c.o("wv", fb(0.08), hx(video_delta(rng, codec)), 0)
+            c.o("fin", 0)
+            g.append(c)
+        _grouped(out, P + "codec", g)
+        # 5. same sample counts (and same totals) with different per-sample timing
+        g = []
+        V = [(0, 3000, 6000, 9000, 12000), (0, 2999, 6030, 9030, 12030), (0, 3000, 6000, 9000, 12000), (0, 1000, 6000, 11000, 12000)]
+        A = [(0, 1920, 3840, 5760), (0, 960, 3840, 5760), (0, 1920, 3840, 5760), (0, 2250, 2340, 5760)]
+        for k in range(4):
+            c = Case("%stiming%d" % (P, k), "mux")
+            c.b("video", "h264", "280", "1e0")
+            c.b("audio", "aac-lc", "bb80", "2")
+            c.b("fast", (k + r) % 2)
+            ops = [(t, 0, j) for j, t in enumerate(V[k])] + [(t, 1, j) for j, t in enumerate(A[k])]
+            if k % 2 == 0:
+                ops.sort()
+            for t, kind, j in ops:
+                if kind == 0:
+                    c.o("wv", fb((90000 + t) / 90000.0),
+                        hx(SC4 + SPS_A + SC4 + bytes.fromhex("68ce3880") + SC3 + b"\x65" + bytes([j + 1]) if j == 0 else SC4 + b"\x41" + bytes([j + 1, 7])), 1 if j == 0 else 0)
+                else:
+                    c.o("wa", fb((90000 + t) / 90000.0), hx(adts(rng, payload_len=3 + j, chan=2)))
+            c.o("fin", 0)
+            g.append(c)
+        _grouped(out, P + "timing", g)
+        # 6. a finish that fails in the sink, then good muxers (both layouts)
+        g = []
+        for k, (fast, sink) in enumerate([(1, "f0"), (1, None), (1, "a5 f3"), (1, None), (0, "f1"), (0, None), (1, "a%x f4" % 10**6), (1, None)]):
+            c = Case("%sfail%d" % (P, k), "mux")
+            c.b("video", "h264", "280", "1e0")
+            if k >= 4:
+                c.b("audio", "aac-lc", "bb80", "2")
+            c.b("fast", fast)
+            if sink:
+                c.raw("sink " + sink)
+            _h264_hist(c, rng, fin=rng.choice([0, 1]))
+            g.append(c)
+        _grouped(out, P + "fail", g)
+        # 7. Opus packets that share a TOC byte: valid / invalid forms, within one muxer and across muxers
+        g = []
+        SEQS = [[b"\x27\x02\xaa\xbb", b"\x27", b"\x27\x00\xaa", b"\x27\x02\xcc\xdd"],
+                [b"\xfb\x00\xaa", b"\xfb\x02\xaa\xbb", b"\xfb", b"\xfb\x02\x11\x22"],
+                [b"\x27", b"\x27\x02\xaa\xbb"], [b"\xfb\x02\xaa\xbb", b"\xfb\x80\xaa", b"\xfb\x02\xaa\xbb"]]
+        for k, seq in enumerate(SEQS):
+            c = Case("%sopus%d" % (P, k), "mux")
+            c.b("video", "h264", "280", "1e0")
+            c.b("audio", "opus", "bb80", "2")
+            c.o("wv", fb(0.0), hx(SC4 + SPS_A + SC4 + bytes.fromhex("68ce3880") + SC3 + b"\x65\x88\x84"), 1)
+            for j, pkt in enumerate(seq):
+                c.o("wa", fb(0.02 * j), hx(pkt))
+            c.o("fin", 0)
+            g.append(c)
+        _grouped(out, P + "opus", g)
+        # 8. audio configured: silent muxer, then one with audio frames, then silent again
+        g = []
+        for k, na in enumerate([0, 3, 0, 2]):
+            c = Case("%ssilent%d" % (P, k), "mux")
+            c.b("video", "h264", "280", "1e0")
+            c.b("audio", "aac-lc", "bb80", "2")
+            c.b("fast", (k // 2) % 2)
+            c.o("wv", fb(0.0), hx(SC4 + SPS_A + SC4 + bytes.fromhex("68ce3880") + SC3 + b"\x65\x88\x84"), 1)
+            for j in range(na):
+                c.o("wa", fb(0.02 * j), hx(adts(rng, payload_len=4, chan=2)))
+            c.o("wv", fb(0.04), hx(SC4 + b"\x41\x9a\x01"), 0)
+            c.o("fin", 0)
+            g.append(c)
+        _grouped(out, P + "silent", g)
+    return out
+
+
+def fam_frag_neighbours(rng, n, prefix):
+    """groups of fragmented muxers run back to back in one process"""
+    out = []
+    for r in range(n):
+        P = "%sr%d_" % (prefix, r)
+        # configurations that differ in the timescale only, then in the size
+        g = []
+        for k, (w, h, ts) in enumerate([(640, 480, 90000), (640, 480, 1000), (1920, 1080, 90000), (640, 480, 90000), (640, 480, 48000)]):
+            c = Case("%sts%d" % (P, k), "frag")
+            c.raw("fc %x %x %x %x %s %s ~ ~ ~" % (w, h, ts, 2000, "6742001e", "68ce"))
+            c.o("fi")
+            c.o("fw", "0", "0", hx(rng.bytes(3)), 1)
+            c.o("fw", "bb8", "bb8", hx(rng.bytes(2)), 0)
+            c.o("ff")
+            c.o("fi")
+            g.append(c)
+        _grouped(out, P + "ts", g)
+        # segments of different lengths under the same sequence number (2, 5, 1, 70, 90, 64, 63 samples)
+        g = []
+        for k, m in enumerate([2, 5, 1, 70, 90, 64, 63, 3]):
+            c = Case("%slen%d" % (P, k), "frag")
+            c.raw("fc 280 1e0 15f90 7d0 6742001e 68ce ~ ~ ~")
+            step = rng.choice([3000, 1500, 3003])
+            for j in range(m):
+                c.o("fw", "%x" % (j * step + (j % 3)), "%x" % (j * step), hx(rng.bytes(rng.range(1, 4))), 1 if j == 0 else 0)
+            c.o("ff")
+            c.o("fw", "%x" % (m * step), "%x" % (m * step), hx(rng.bytes(2)), 1)
+            c.o("ff")
+            g.append(c)
+        _grouped(out, P + "len", g)
+        # AV1 sequence headers with the same payload bits behind different OBU headers
+        g = []
+        pay = av1_seq_payload_simple(rng)
+        for k, o in enumerate([obu(1, pay), bytes([0x0a, 0x80 | len(pay), 0x00]) + pay, obu(1, pay), obu(1, pay, ext=True)]):
+            c = Case("%sav1%d" % (P, k), "frag")
+            c.b("video", "av1", "280", "1e0")
+            c.b("av1seq", hx(o))
+            c.o("fi")
+            g.append(c)
+        _grouped(out, P + "av1", g)
+    return out
